@@ -612,7 +612,8 @@ Definition h_readdir_readdirplus (op : N) : handler_fn := fun cfg h ctx r fr wca
     let plus := op =? 44 in
     with_obj 40 r (fun s _ =>
       let size := u32 16 s in
-      if wcap <? size then ([], ReplyErr ENOMEM None)
+      (* available_bytes < size.saturating_add(size_of::<OutHeader>()) (repaired by fix: 65c0776; was: < size) *)
+      if wcap <? size + OUT_HDR then ([], ReplyErr ENOMEM None)
       else if wcap <? OUT_HDR then ([], NoReply (RErr EInvalidHeaderLength))
       else
         let c := C (if plus then "readdirplus" else "readdir") [AN ino; AN (u64 0 s); AN size; AN (u64 8 s)] in
